@@ -119,7 +119,7 @@ def judge(ctx):
 
 
 CFG = G.cfg(blocks=("repeat", "repeat", "merge", "nest"), max_levels=3, max_factors=3, max_derived=1, kinds=("within", "transition"),
-            explicit_start=False, max_constraints=1, max_crossing=2, p_weight=0.0, max_leaf_constraints=1, min_leaf_constraints=1,
+            explicit_start=False, max_constraints=1, max_crossing=2, p_weight=0.12, max_leaf_constraints=1, min_leaf_constraints=1,
             kind_weight={"exclude": 1, "atmost": 4, "exactly_k": 2, "pin": 2, "atleast": 2},
             constraints=("exclude", "pin", "atmost", "atleast", "exactly_row", "exactly_k", "sequential", "latin", "min"))
 P = D.DesignProperty(
